@@ -426,4 +426,30 @@ end
 def lexWord (d : Delim) (cs : List Char) : Option (Word × List Char) :=
   lexWordUnits (cs.length + 2) .word d cs
 
+/-! ## Word tokens of a simple command -/
+
+/-- `Lexer::skip_blanks` -/
+def skipBlanks : Nat → List Char → List Char
+  | 0, cs => cs
+  | fuel + 1, cs =>
+    match skipLC cs with
+    | [] => []
+    | c :: r => if isBlank c then skipBlanks fuel r else c :: r
+
+/-- The argument words of a simple command: the loop of `Parser::simple_command` over plain word tokens
+    (`Lexer::token` = skip blanks, `word(is_token_delimiter_char)`, `parse_tilde_front`), up to the first
+    position where no word starts (operator or end of input).  Assignments, redirections, keywords and
+    IO numbers are not distinguished here. -/
+def lexWords : Nat → List Char → Option (List Word × List Char)
+  | 0, _ => none
+  | fuel + 1, cs =>
+    let cs' := skipBlanks cs.length cs
+    match lexWord .token cs' with
+    | none => none
+    | some ([], r) => some ([], r)
+    | some (u :: us, r) =>
+      match lexWords fuel r with
+      | none => none
+      | some (ws, r') => some (parseTildeFront (u :: us) :: ws, r')
+
 end YashModel.Syntax
